@@ -100,7 +100,7 @@ def build_encrypted(objs, info, mode, upw, opw, P, em, layout, r, identity_strea
 def phase_gen(out, seed, tier, kv):
     d = os.path.join(out, "cases")
     os.makedirs(d, exist_ok=True)
-    n = 260 if tier == "quick" else 12000
+    n = 260 if tier == "quick" else 4000
     with open(os.path.join(d, "cases.jsonl"), "w") as f:
         for c in range(n):
             r = rng(seed, "c06", c)
